@@ -3,6 +3,7 @@ package main
 // Calls: contracts, frames, builtins, interface dispatch, default havoc.
 
 import (
+	"regexp"
 	"go/token"
 	"fmt"
 	"go/types"
@@ -186,7 +187,8 @@ func (p *Program) writeSetX(fn *ssa.Function, skipFV bool) *FrameSet {
 	cells := map[*ssa.Alloc]bool{}
 	if p.Spec != nil {
 		for _, r := range p.Spec.Relies {
-			if r.Pkg == fnPkgPath(fn) {
+			if r.Pkg == fnPkgPath(fn) && callsMatching(fn, r.Callee) {
+				// the environment step is applied in front of the matching calls of this function only
 				if efc := p.Contracts[r.Env]; efc != nil {
 					x.ghostSetFrame(nil, efc, ws)
 				}
@@ -2088,6 +2090,29 @@ func endsInFalse(fc *FuncContract) bool {
 	for _, c := range fc.Ensures {
 		if strings.TrimSpace(c.Text) == "false" {
 			return true
+		}
+	}
+	return false
+}
+
+// callsMatching: does fn contain a call whose (static or interface) callee name matches re?
+func callsMatching(fn *ssa.Function, re *regexp.Regexp) bool {
+	for _, b := range fn.Blocks {
+		for _, in := range b.Instrs {
+			ci, ok := in.(ssa.CallInstruction)
+			if !ok {
+				continue
+			}
+			c := ci.Common()
+			callee := ""
+			if f := c.StaticCallee(); f != nil {
+				callee = funcKey(f)
+			} else if c.IsInvoke() {
+				callee = c.Method.FullName()
+			}
+			if callee != "" && re.MatchString(callee) {
+				return true
+			}
 		}
 	}
 	return false
